@@ -58,6 +58,7 @@ class Engine:
         self.dep_violations = []
         self.__dict__.pop("_intcache", None)
         self.__dict__.pop("_trig", None)
+        self.__dict__.pop("_atan", None)
 
     def hyps(self):
         return list(self.pc) + list(self.assumptions)
@@ -541,7 +542,17 @@ class _NpShim:
     @staticmethod
     def arctan2(y, x):
         if isinstance(x, Sym) or isinstance(y, Sym):
-            raise Unsupported("np.arctan2 of symbolic numbers (A4: not modelled)")
+            # A4: only the *range* of atan2 is modelled: a fresh angle in [-pi, pi] per (y, x) term pair
+            eng = Engine.cur
+            eng.shims_hit.add("np.arctan2(range only)")
+            cache = eng.__dict__.setdefault("_atan", {})
+            key = (lift(y).sexpr(), lift(x).sexpr())
+            if key not in cache:
+                a = eng.fresh_real("atan2", "F")
+                pi = lift(math.pi)
+                eng.assume(z3.And(a.t >= -pi, a.t <= pi))
+                cache[key] = a
+            return cache[key]
         return np.arctan2(y, x)
 
 
